@@ -397,13 +397,9 @@ class Parser:
     def parse_prefix_expression(self, stream: TokenStream) -> Expression:
         tok = stream.next_token()
         assert tok.type_ == TokenType.NOT
-        return PrefixExpression(
-            tok,
-            operator="!",
-            right=self.parse_filter_expression(
-                stream, precedence=self.PRECEDENCE_PREFIX
-            ),
-        )
+        right = self.parse_filter_expression(stream, precedence=self.PRECEDENCE_PREFIX)
+        self._raise_for_uncompared(right)
+        return PrefixExpression(tok, operator="!", right=right)
 
     def parse_infix_expression(
         self, stream: TokenStream, left: Expression
@@ -418,19 +414,8 @@ class Parser:
             self._raise_for_non_comparable_function(right, tok)
             return ComparisonExpression(tok, left, operator, right)
 
-        if isinstance(left, FilterExpressionLiteral):
-            raise JSONPathSyntaxError(
-                "filter expression literals outside of "
-                "function expressions must be compared",
-                token=left.token,
-            )
-        if isinstance(right, FilterExpressionLiteral):
-            raise JSONPathSyntaxError(
-                "filter expression literals outside of "
-                "function expressions must be compared",
-                token=right.token,
-            )
-
+        self._raise_for_uncompared(left)
+        self._raise_for_uncompared(right)
         return LogicalExpression(tok, left, operator, right)
 
     def parse_grouped_expression(self, stream: TokenStream) -> Expression:
@@ -447,6 +432,7 @@ class Parser:
             expr = self.parse_infix_expression(stream, expr)
 
         stream.expect(TokenType.RPAREN)
+        self._raise_for_uncompared(expr)
         return expr
 
     def parse_root_query(self, stream: TokenStream) -> Expression:
@@ -683,6 +669,25 @@ class Parser:
 
     def _is_low_surrogate(self, codepoint: int) -> bool:
         return codepoint >= 0xDC00 and codepoint <= 0xDFFF
+
+    def _raise_for_uncompared(self, expr: Expression) -> None:
+        """Raise if _expr_ is a literal or a ValueType function call."""
+        if isinstance(expr, FilterExpressionLiteral):
+            raise JSONPathSyntaxError(
+                "filter expression literals outside of "
+                "function expressions must be compared",
+                token=expr.token,
+            )
+
+        if isinstance(expr, FunctionExtension):
+            func = self.env.function_extensions.get(expr.name)
+            if (
+                isinstance(func, FilterFunction)
+                and func.return_type == ExpressionType.VALUE
+            ):
+                raise JSONPathTypeError(
+                    f"result of {expr.name}() must be compared", token=expr.token
+                )
 
     def _raise_for_non_comparable_function(
         self, expr: Expression, token: Token
